@@ -409,7 +409,7 @@ XStart(k) ==      \* first step of an execute_handler task
   /\ cur' = XT(k)
   /\ UNCHANGED <<nev, ev, q, unf, shut, hist, running, idle, semv, depth, lockq, nact, nx, xh, o>>
 XEnd(k) ==        \* execute_handler returned (after its monitor hop)
-  /\ cur = NoTask /\ k <= nx /\ task[XT(k)].pc = "mon" /\ task[XT(k)].todo = <<>>
+  /\ cur = NoTask /\ k <= nx /\ task[XT(k)].pc = "mon" /\ task[XT(k)].todo = <<>> /\ ~task[XT(k)].canc
   /\ task' = [task EXCEPT ![XT(k)].pc = "done"]
   /\ UNCHANGED <<nev, ev, q, unf, shut, hist, running, idle, semv, depth, lockq, nact, nx, xh, cur, o>>
 
@@ -487,6 +487,59 @@ OwnerResume(t) ==
           /\ task' = [task EXCEPT ![t].pc = "monx"]
   /\ UNCHANGED <<nev, q, unf, shut, hist, running, idle, semv, depth, lockq, nact, nx, xh, cur, o>>
 
+\* what a task is awaiting: the handler task of its current handler (wait_for), or - on a parallel_handlers bus - the first
+\* execute_handler task (creation order) that has not finished yet
+XTasksOfT(T, t) == {k \in 1..nx : T[XT(k)].owner = t /\ T[XT(k)].pc \notin {"free", "none"}}
+FirstPendingX(T, t) == LET S == {k \in XTasksOfT(T, t) : T[XT(k)].pc # "done"} IN IF S = {} THEN 0 ELSE CHOOSE k \in S : \A j \in S : k <= j
+RECURSIVE TChain(_)
+TChain(t) ==    \* the tasks below t along its awaits, outermost first
+  IF task[t].pc = "waith" /\ task[t].fa # 0 THEN <<HT(task[t].fa)>> \o TChain(HT(task[t].fa))
+  ELSE IF task[t].pc = "pwait" /\ FirstPendingX(task, t) # 0 THEN <<XT(FirstPendingX(task, t))>> \o TChain(XT(FirstPendingX(task, t)))
+  ELSE <<>>
+\* task.cancel() on a suspended task u: asyncio passes the cancellation down to whatever u awaits; the innermost task is woken with
+\* CancelledError, everybody above meets it when the task below has ended.  Returns [T, ok] (ok = FALSE: a suspension point the model
+\* does not cover)
+RECURSIVE CancelTask(_, _)
+CancelTask(T, u) ==
+  LET pc == T[u].pc IN
+  IF pc = "waith" /\ T[u].fa # 0
+  THEN LET r == CancelTask(T, HT(T[u].fa)) IN [T |-> [r.T EXCEPT ![u].canc = TRUE], ok |-> r.ok]
+  ELSE IF pc = "pwait"
+  THEN LET k == FirstPendingX(T, u) IN
+       IF k = 0 THEN [T |-> [T EXCEPT ![u].canc = TRUE, ![u].fa = 0], ok |-> TRUE]      \* all handler tasks done, u about to resume
+       ELSE LET r == CancelTask(T, XT(k)) IN [T |-> [r.T EXCEPT ![u].canc = TRUE, ![u].fa = k], ok |-> r.ok]   \* fa remembers the task awaited
+  ELSE IF pc \in {"sleep", "yield", "spin"}
+  THEN [T |-> [T EXCEPT ![u].canc = TRUE, ![u].pc = "cancelled"], ok |-> TRUE]
+  ELSE IF pc = "new"      \* a handler task cancelled before its first step: its code never runs, its owner is woken with the cancellation
+  THEN [T |-> [T EXCEPT ![u].canc = TRUE, ![u].pc = "done", ![u].out = "cancel", ![T[u].owner].pc = "hdone"], ok |-> TRUE]
+  ELSE IF pc = "xnew"     \* an execute_handler task cancelled before its first step: nothing of it runs, the result stays pending
+  THEN [T |-> [T EXCEPT ![u].canc = TRUE, ![u].pc = "done", ![u].out = "cancel"], ok |-> TRUE]
+  ELSE IF pc \in {"hdone", "mon"}    \* about to resume: meets the cancellation when it does
+  THEN [T |-> [T EXCEPT ![u].canc = TRUE], ok |-> TRUE]
+  ELSE [T |-> T, ok |-> FALSE]
+FreeX(T, t) == [u \in DOMAIN T |-> IF u[1] = "x" /\ T[u].owner = t /\ T[u].pc = "done" THEN [T[u] EXCEPT !.pc = "free"] ELSE T[u]]
+\* parallel_handlers frames under cancellation (fix: G7): the owner wakes from `await task` with CancelledError, cancels every
+\* handler task of the frame that is still running and waits for all of them (gather) before the cancellation travels on
+PCancelWake(t) ==
+  /\ cur = NoTask /\ task[t].pc = "pwait" /\ task[t].canc
+  /\ (IF task[t].fa = 0 THEN TRUE ELSE task[XT(task[t].fa)].pc = "done")
+  /\ LET RECURSIVE Fold(_, _)
+         Fold(r, S) == IF S = {} THEN r
+                       ELSE LET k == CHOOSE k \in S : TRUE
+                                c == CancelTask(r.T, XT(k))
+                            IN Fold([T |-> c.T, ok |-> r.ok /\ c.ok], S \ {k})
+         rest == {k \in XTasksOfT(task, t) : task[XT(k)].pc # "done"}
+         r == Fold([T |-> task, ok |-> TRUE], rest) IN
+     /\ r.ok
+     /\ task' = [r.T EXCEPT ![t].pc = "pgather", ![t].fa = 0]
+  /\ UNCHANGED <<nev, ev, q, unf, shut, hist, running, idle, semv, depth, lockq, nact, nx, xh, cur, o>>
+GatherDone(t) == task[t].pc = "pgather" /\ \A k \in XTasksOfT(task, t) : task[XT(k)].pc = "done"
+\* an interrupted execute_handler task of a parallel frame ends with the cancellation (its result is already recorded)
+XAbandon(k) ==
+  /\ cur = NoTask /\ k <= nx /\ (task[XT(k)].pc = "monx" \/ (task[XT(k)].pc = "mon" /\ task[XT(k)].canc))
+  /\ task' = [task EXCEPT ![XT(k)].pc = "done", ![XT(k)].out = "cancel"]
+  /\ UNCHANGED <<nev, ev, q, unf, shut, hist, running, idle, semv, depth, lockq, nact, nx, xh, cur, o>>
+
 \* the interrupted owner's process_event (fix: F5): the handlers of the event that will never run get a cancellation error, then
 \* the usual tail (completion mark, ancestors, history cleanup) runs and the cancellation travels on; no log / WAL line, and
 \* the caller's task_done is the caller's business (probe line ProcX when the exception leaves process_event)
@@ -499,22 +552,20 @@ AbandonFx(b, e) ==
       E2 == MarkUp(E1, hist, e, {})
   IN [E |-> E2, H |-> [hist EXCEPT ![b] = Evict(E2, b, @)]]
 OwnerAbandon(t) ==
-  /\ cur = NoTask /\ t[1] = "h" /\ (task[t].pc = "monx" \/ (task[t].pc = "mon" /\ task[t].canc))
+  /\ cur = NoTask /\ t[1] = "h" /\ (task[t].pc = "monx" \/ (task[t].pc = "mon" /\ task[t].canc) \/ GatherDone(t))
   /\ LET fx == AbandonFx(task[t].fb, task[t].fe) IN
      /\ ev' = fx.E /\ hist' = fx.H
      /\ o' = Obs(ProcLineX("ProcX", t, task[t].fb, task[t].fe, "Cancelled"), fx.E, nev, fx.H, q)
-  /\ task' = [task EXCEPT ![t].pc = "cancelled", ![t].fe = 0, ![t].fh = "", ![t].fa = 0, ![t].todo = <<>>]   \* (fb is kept for the task_done below)
+  /\ task' = FreeX([task EXCEPT ![t].pc = "cancelled", ![t].fe = 0, ![t].fh = "", ![t].fa = 0, ![t].todo = <<>>], t)   \* (fb is kept for the task_done below)
   /\ UNCHANGED <<nev, q, unf, shut, running, idle, semv, depth, lockq, nact, nx, xh, cur>>
 
-RECURSIVE Chain(_)
-Chain(a) == IF task[HT(a)].pc = "waith" /\ task[HT(a)].fa # 0 THEN <<a>> \o Chain(task[HT(a)].fa) ELSE <<a>>
 OwnerAbandonRL(b) ==   \* a cancelled run loop: process_event is abandoned (probe line ProcX) ...
-  /\ cur = NoTask /\ task[RL(b)].canc /\ task[RL(b)].pc \in {"monx", "mon"}
+  /\ cur = NoTask /\ task[RL(b)].canc /\ (task[RL(b)].pc \in {"monx", "mon"} \/ GatherDone(RL(b)))
   /\ LET t == RL(b)
          fx == AbandonFx(task[t].fb, task[t].fe) IN
      /\ ev' = fx.E /\ hist' = fx.H
      /\ o' = Obs(ProcLineX("ProcX", t, task[t].fb, task[t].fe, "Cancelled"), fx.E, nev, fx.H, q)
-     /\ task' = [task EXCEPT ![t].pc = "dyingl", ![t].fe = 0, ![t].fb = "", ![t].fh = "", ![t].fa = 0, ![t].todo = <<>>]
+     /\ task' = FreeX([task EXCEPT ![t].pc = "dyingl", ![t].fe = 0, ![t].fb = "", ![t].fh = "", ![t].fa = 0, ![t].todo = <<>>], t)
   /\ cur' = RL(b)
   /\ UNCHANGED <<nev, q, unf, shut, running, idle, semv, depth, lockq, nact, nx, xh>>
 RLDieLocked(b) ==      \* ... then step()'s `async with` leaves the lock and _run_loop's finally clears the running flag
@@ -536,40 +587,19 @@ CancelRLFx(b, T, LQ) ==
     [] pc = "poll" /\ q[b] # <<>>        -> [T |-> [T EXCEPT ![t].pc = "dyingt"], lq |-> LQ, ok |-> TRUE]   \* the poll in flight still takes the head (and loses it)
     [] pc \in {"poll", "pollx", "got"}   -> [T |-> [T EXCEPT ![t].pc = "dying"], lq |-> LQ, ok |-> TRUE]
     [] pc = "lockwait"                   -> [T |-> [T EXCEPT ![t].pc = "dying"], lq |-> SelectSeq(LQ, LAMBDA x : x # t), ok |-> TRUE]
-    [] pc = "waith" /\ T[t].fa # 0      ->
-         LET ch == Chain(T[t].fa)  inner == Last(ch) IN
-         IF Suspended(inner)
-         THEN [T |-> [u \in Tasks |-> IF u = t THEN [T[u] EXCEPT !.canc = TRUE]
-                                      ELSE IF u[1] = "h" /\ InSeq(u[2], ch) THEN [T[u] EXCEPT !.canc = TRUE, !.pc = IF u[2] = inner THEN "cancelled" ELSE @]
-                                      ELSE T[u]], lq |-> LQ, ok |-> TRUE]
-         ELSE IF T[HT(inner)].pc = "new"
-         THEN \* the innermost handler task is cancelled before its first step: its code never runs, its owner is woken with the cancellation
-              [T |-> [u \in Tasks |-> IF u = t /\ T[HT(inner)].owner # t THEN [T[u] EXCEPT !.canc = TRUE]
-                                      ELSE IF u = T[HT(inner)].owner THEN [T[u] EXCEPT !.canc = TRUE, !.pc = "hdone"]
-                                      ELSE IF u = HT(inner) THEN [T[u] EXCEPT !.canc = TRUE, !.pc = "done", !.out = "cancel"]
-                                      ELSE IF u[1] = "h" /\ InSeq(u[2], ch) THEN [T[u] EXCEPT !.canc = TRUE]
-                                      ELSE T[u]], lq |-> LQ, ok |-> TRUE]
-         ELSE IF T[HT(inner)].pc \in {"hdone", "mon"}
-         THEN \* the innermost level is an inline owner about to resume: it meets the cancellation when it does
-              [T |-> [u \in Tasks |-> IF u = t THEN [T[u] EXCEPT !.canc = TRUE]
-                                      ELSE IF u[1] = "h" /\ InSeq(u[2], ch) THEN [T[u] EXCEPT !.canc = TRUE]
-                                      ELSE T[u]], lq |-> LQ, ok |-> TRUE]
-         ELSE [T |-> T, lq |-> LQ, ok |-> FALSE]
+    [] pc \in {"waith", "pwait"}          -> LET r == CancelTask(T, t) IN [T |-> r.T, lq |-> LQ, ok |-> r.ok]
     [] pc \in {"hdone", "mon"}           -> [T |-> [T EXCEPT ![t].canc = TRUE], lq |-> LQ, ok |-> TRUE]
-    [] OTHER                             -> [T |-> T, lq |-> LQ, ok |-> FALSE]      \* (granted / parallel frames: not modelled)
+    [] OTHER                             -> [T |-> T, lq |-> LQ, ok |-> FALSE]      \* (granted / inside a stretch: not modelled)
 
 \* handler timeouts (A.9): wait_for expires while the innermost handler of the chain is in a timed sleep
 TimeoutFire(t) ==
-  /\ cur = NoTask /\ task[t].pc = "waith" /\ t[1] # "x" /\ task[t].fa # 0
+  /\ cur = NoTask /\ task[t].pc = "waith" /\ task[t].fa # 0
   /\ ev[task[t].fe].ty \in TimeoutTypes
   /\ ~task[t].canc
-  /\ LET ch == Chain(task[t].fa)  inner == Last(ch) IN
-     /\ task[HT(inner)].pc = "sleep"
-     /\ task' = [u \in Tasks |->
-                   IF u = t THEN [task[u] EXCEPT !.tout = TRUE]
-                   ELSE IF u[1] = "h" /\ InSeq(u[2], ch)
-                        THEN [task[u] EXCEPT !.canc = TRUE, !.pc = IF u[2] = inner THEN "cancelled" ELSE @]
-                        ELSE task[u]]
+  /\ LET ch == TChain(t)  inner == Last(ch)
+         r == CancelTask(task, HT(task[t].fa)) IN
+     /\ inner[1] = "h" /\ task[inner].pc = "sleep" /\ r.ok
+     /\ task' = [r.T EXCEPT ![t].tout = TRUE]
   /\ UNCHANGED <<nev, ev, q, unf, shut, hist, running, idle, semv, depth, lockq, nact, nx, xh, cur, o>>
 
 \* the cancelled handler's code sees CancelledError at its suspension point (await child / sleep) and ends
@@ -594,7 +624,7 @@ IsWal(b) == LET r == BusRec(Cfg, b) IN "wal" \in DOMAIN r /\ r.wal
 HandlersFinished(t) ==
   /\ task[t].fe # 0 /\ t[1] # "x"
   /\ \/ (cur = t /\ task[t].pc = "pb") \/ (cur = NoTask /\ task[t].pc = "mon" /\ ~task[t].canc)
-     \/ (cur = NoTask /\ task[t].pc = "pwait" /\ \A k \in XTasksOf(t) : task[XT(k)].pc = "done")
+     \/ (cur = NoTask /\ task[t].pc = "pwait" /\ ~task[t].canc /\ \A k \in XTasksOf(t) : task[XT(k)].pc = "done")
   /\ task[t].todo = <<>>
 \* write-ahead log (C17): after the handlers, before the completion mark; open / write / close each suspend once; errors are swallowed
 WalBegin(t) ==
@@ -632,7 +662,6 @@ OwnerTail(t) ==
   /\ UNCHANGED <<nev, q, unf, shut, running, idle, semv, depth, lockq, nact, nx, xh>>
 
 \* what the caller of process_event does next: task_done; the run loop also leaves the lock, checks idle and polls again
-FreeX(T, t) == [u \in DOMAIN T |-> IF u[1] = "x" /\ T[u].owner = t /\ T[u].pc = "done" THEN [T[u] EXCEPT !.pc = "free"] ELSE T[u]]
 OwnerEpilogue(t) ==
   /\ cur = t /\ task[t].pc = "tail"
   /\ LET b == task[t].fb IN
@@ -893,7 +922,8 @@ NextCore ==
   \/ \E t \in Tasks : ParStart(t) \/ OwnerAbandon(t) \/ TimeoutFire(t)
   \/ \E t \in Tasks : WalBegin(t) \/ WalClose(t) \/ (\E f \in BOOLEAN : WalOpen(t, f) \/ WalWrite(t, f))
   \/ \E a \in 1..MaxAct : HCancelAw(a) \/ HCancelExit(a)
-  \/ \E k \in 1..MaxAct : XStart(k) \/ XEnd(k)
+  \/ \E k \in 1..MaxAct : XStart(k) \/ XEnd(k) \/ XAbandon(k)
+  \/ \E t \in Tasks : PCancelWake(t)
   \/ \E t \in Tasks : FwdReturn(t) \/ OwnerAbort(t) \/ ProcSelect(t) \/ OwnerNext(t) \/ OwnerResume(t) \/ OwnerTail(t) \/ OwnerEpilogue(t)
   \/ \E a \in 1..MaxAct :
         \/ HStart(a) \/ HWake(a) \/ HAwaitDone(a) \/ InlineSpin(a) \/ SpinWake(a) \/ InlineGiveUp(a)
